@@ -55,7 +55,7 @@ def required_cells(tier):
 
 
 KINDS = ['emit', 'emit', 'twice', 'twice', 'val', 'pv', 'pv', 'assign', 'for', 'multi', 'valml', 'semi', 'semival', 'quiet',
-         'blankout', 'wsout', 'emitblank', 'pvblank', 'aval', 'apv', 'acomp']
+         'blankout', 'wsout', 'emitblank', 'pvblank', 'aval', 'apv', 'acomp', 'coro_obj']
 
 
 def out_to_want(text):
@@ -101,6 +101,9 @@ def gen_program(rng):
             S.append(St(['await apv(%d)' % k], kind, k, is_expr=True))
         elif kind == 'acomp':
             S.append(St(['[x async for x in agen(%d)]' % k], kind, k, is_expr=True))
+        elif kind == 'coro_obj':
+            # the value is a coroutine object that nobody awaits: its body must not run
+            S.append(St(['quiet(%d) or acoro(%d)' % (k, k)], kind, k, is_expr=True))
         elif kind == 'blankout':
             # an evaluated expression whose whole output is one empty line (value None)
             S.append(St(['print(end=quiet(%d) or "\\n")' % k], kind, k, is_expr=True))
@@ -118,6 +121,12 @@ def value_repr(st, ref, idx):
     v = ref.values[idx]
     if st.kind == 'semival':
         return 'R%d' % st.sid
+    if st.kind == 'coro_obj':
+        try:
+            v.close()
+        except Exception:
+            pass
+        return '<coroutine object acoro at 0x...>'      # ELLIPSIS is on by default
     if v is gp.NOVALUE or v is None:
         return None
     return repr(v)
